@@ -1037,3 +1037,22 @@ func (p *Prog) globalNonNil(g *ssa.Global) bool {
 	p.globalNN[g] = res
 	return res
 }
+
+// GCmpU: like GCmp, but the compared X operand must have an unsigned type at the comparison — a
+// bound on a length announced by a peer is no bound after a conversion to a signed type (a huge
+// value turns negative and passes `<=`).
+func GCmpU(x, op, y string) Gate {
+	w, okop := opByName[op]
+	if !okop {
+		panic("bad op " + op)
+	}
+	px, py := P(x), P(y)
+	return Gate{Name: fmt.Sprintf("unsigned %s %s %s", x, op, y), Edges: func(p *Prog, ifi *ssa.If) (bool, bool) {
+		unsignedX := func(v ssa.Value) bool { return px.Match(p.D(v)) && isUnsigned(v.Type()) }
+		tr, fr, ok := condCmp(p, ifi, unsignedX, p.matchD(py))
+		if !ok {
+			return false, false
+		}
+		return implies(tr, w), implies(fr, w)
+	}}
+}
